@@ -1,0 +1,16 @@
+//go:build verif
+
+package api
+
+// VerifCrashHook, when set, is called at every VerifCrashPoint, i.e. between
+// two successive durable writes of the node database backends (verification
+// harness only, build tag "verif"). The harness uses it to count the points an
+// operation passes, to delay there, or to kill the process without unwinding.
+var VerifCrashHook func(name string)
+
+// VerifCrashPoint marks a point between two durable writes.
+func VerifCrashPoint(name string) {
+	if h := VerifCrashHook; h != nil {
+		h(name)
+	}
+}
